@@ -15,6 +15,7 @@ from fvmon import gen
 from fvmon.observe import content, snap, unbox, RC, WF, rc_kind, wf_kind
 
 SPEC = {
+    "anchors": ["fibertree.core.iterators:__lshift__", "fibertree.core.fiber:Fiber._create_payload", "fibertree.core.rank:Rank.pop", "fibertree.core.fiber:Fiber.setActive"],
     "rule": ("case = destination tree x source tree of depth 1-3 (destination empty / disjoint / overlapping / superset, "
              "holding explicit defaults and empty sub-fibers, free (depth 1) or tensor-owned; source compressed, "
              "U-format at the top or an interior rank, or lazy (a1 & a2, project)), default 0 or 7, with a "
